@@ -50,18 +50,18 @@ var respOps = []respOp{
 		}
 	}},
 	{"peer-cancels-second", func(w *l2transport.RealWorld, c datatransfer.ChannelID, r int) {
-		w.Net.Receiver.ReceiveRequest(context.Background(), doubles.PeerB, doubles.Recode(message.CancelRequest(c.ID+1)).(datatransfer.Request))
+		w.Net.Receiver.ReceiveRequest(opCtx, doubles.PeerB, doubles.Recode(message.CancelRequest(c.ID+1)).(datatransfer.Request))
 	}},
 	{"peer-cancels", func(w *l2transport.RealWorld, c datatransfer.ChannelID, r int) {
-		w.Net.Receiver.ReceiveRequest(context.Background(), doubles.PeerB, doubles.Recode(message.CancelRequest(c.ID)).(datatransfer.Request))
+		w.Net.Receiver.ReceiveRequest(opCtx, doubles.PeerB, doubles.Recode(message.CancelRequest(c.ID)).(datatransfer.Request))
 	}},
 	{"peer-pauses", func(w *l2transport.RealWorld, c datatransfer.ChannelID, r int) {
-		w.Net.Receiver.ReceiveRequest(context.Background(), doubles.PeerB, doubles.Recode(message.UpdateRequest(c.ID, true)).(datatransfer.Request))
+		w.Net.Receiver.ReceiveRequest(opCtx, doubles.PeerB, doubles.Recode(message.UpdateRequest(c.ID, true)).(datatransfer.Request))
 	}},
 	{"peer-voucher", func(w *l2transport.RealWorld, c datatransfer.ChannelID, r int) {
 		v := doubles.Voucher("T", "follow-up")
 		m, _ := message.VoucherRequest(c.ID, &v)
-		w.Net.Receiver.ReceiveRequest(context.Background(), doubles.PeerB, doubles.Recode(m).(datatransfer.Request))
+		w.Net.Receiver.ReceiveRequest(opCtx, doubles.PeerB, doubles.Recode(m).(datatransfer.Request))
 	}},
 	{"block-queued", func(w *l2transport.RealWorld, c datatransfer.ChannelID, r int) {
 		if h := w.GS.OutgoingBlockHook; h != nil {
@@ -79,16 +79,16 @@ var respOps = []respOp{
 		}
 	}},
 	{"close", func(w *l2transport.RealWorld, c datatransfer.ChannelID, r int) {
-		_ = w.Mgr.CloseDataTransferChannel(context.Background(), c)
+		_ = w.Mgr.CloseDataTransferChannel(opCtx, c)
 	}},
 	{"update-validation", func(w *l2transport.RealWorld, c datatransfer.ChannelID, r int) {
-		_ = w.Mgr.UpdateValidationStatus(context.Background(), c, datatransfer.ValidationResult{Accepted: true, DataLimit: 100})
+		_ = w.Mgr.UpdateValidationStatus(opCtx, c, datatransfer.ValidationResult{Accepted: true, DataLimit: 100})
 	}},
 	{"local-restart", func(w *l2transport.RealWorld, c datatransfer.ChannelID, r int) {
-		_ = w.Mgr.RestartDataTransferChannel(context.Background(), c)
+		_ = w.Mgr.RestartDataTransferChannel(opCtx, c)
 	}},
 	{"query", func(w *l2transport.RealWorld, c datatransfer.ChannelID, r int) {
-		_, _ = w.Mgr.ChannelState(context.Background(), c)
+		_, _ = w.Mgr.ChannelState(opCtx, c)
 		_ = w.T.ChannelsForPeer(doubles.PeerB)
 	}},
 }
@@ -124,6 +124,9 @@ func c20RespBody(x *mc.Cell, ops []int, name, names string) mc.Body {
 			if _, err := w.Mgr.ChannelState(context.Background(), chid); err != nil {
 				panic(fmt.Sprintf("setup: the pull request was not accepted: %v", err))
 			}
+			ctx, cancelOps := context.WithCancel(context.Background())
+			opCtx = ctx
+			defer cancelOps()
 			s := sched.New(lockPoints)
 			sClosed := false
 			defer func() {
@@ -153,7 +156,22 @@ func c20RespBody(x *mc.Cell, ops []int, name, names string) mc.Body {
 				sites := strings.Join(mc.BlockedSites(), "+")
 				n := mc.Unblock()
 				x.Violate("C20", fmt.Sprintf("responder-interleaving;call-did-not-return;blocked-in=%s;ops=%s", sites, names), fmt.Sprintf("operations %v never returned (%d goroutines parked in library locks); schedule: %v\nblocked goroutines:\n%s", stuck, n, s.Trace, stacks), rep)
-				x.Die()
+				cancelOps()
+				s.Close()
+				sClosed = true
+				mc.Wait()
+				_, _ = mc.Call(func() { _ = w.Mgr.Stop(context.Background()) })
+				w.MarkStopped()
+				for _, r := range w.GS.Reqs {
+					w.GS.Finish(r.Num, nil)
+				}
+				mc.Unblock()
+				mc.Wait()
+				closed = true
+				if mc.BlockedStacks(1) != "" {
+					x.Die()
+				}
+				return
 			}
 			s.Close()
 			sClosed = true
